@@ -91,7 +91,8 @@ def run_goextract():
     if err:
         return "goextract build failed:\n" + err
     with Lock("coq.lock"):
-        rc, log = sh([exe, "-repo", REPO, "-out", os.path.join(COQ, "Generated")], timeout=300)
+        rc, log = sh([exe, "-repo", REPO, "-out", os.path.join(COQ, "Generated"),
+                      "-fallback", os.path.join(COQ, "GeneratedBase")], timeout=300)
     if rc != 0:
         return "goextract failed:\n" + log
     return None
